@@ -246,13 +246,16 @@ pub trait Layout {
         if self.shape().iter().any(|d| d == 0) {
             return 0;
         }
-        let max_offset: usize = self
+        // Saturate instead of wrapping: a layout whose largest offset does not
+        // fit in `usize` must never appear to fit in a real buffer.
+        let max_offset = self
             .shape()
             .iter()
             .zip(self.strides().iter())
-            .map(|(size, stride)| (size - 1) * stride)
-            .sum();
-        max_offset + 1
+            .fold(0usize, |max_offset, (size, stride)| {
+                max_offset.saturating_add((size - 1).saturating_mul(stride))
+            });
+        max_offset.saturating_add(1)
     }
 
     /// Return a new layout formed by reshaping this one to `shape`.
